@@ -383,3 +383,41 @@ Lemma callee_local_demo :
     end) [false; true] = true /\
   forallb (val_only (length d_heap)) [RDecl (APar 0); RS (SWrite (AFld (AVar 3) 0) 70%Z)] = true.
 Proof. split; vm_compute; reflexivity. Qed.
+
+(* ---------------------------------------------------------------- 5. the repaired findings' inputs *)
+(* struct In { int v; int w; };  struct P { int s; In inner; int[3] arr; };
+   P a (location 0), a.inner.w = 118;  P b (location 1), b.inner.w = 107.
+     void f(P b) { println(1, b.inner.w); b.inner.w = 139; println(2, b.inner.w); }   f(a);    (parameter = location 2)
+     println(3, a.inner.w, b.inner.w);
+     a.inner = b.inner;  println(4, a.inner.w);
+     b.arr[2] = 106;  P c = b;  (location 3)   println(5, c.inner.w, c.arr[2]);
+     a = c;  println(6, a.arr[2], a.inner.w);
+   These are the inputs of the findings C07-byval-nested-member-read-captured, C07-byval-nested-write-lost,
+   C07-nested-member-assign-noop, C07-decl-copy-loses-nested-member and C07-copy-of-copy-loses-array-member, which the
+   implementation got wrong until the repairs; the store gives the same lines under both conventions. *)
+Definition fx_P (w : Z) : val := VAgg [VInt 0; VAgg [VInt 0; VInt w]; VAgg [VInt 0; VInt 0; VInt 0]]%Z.
+Definition fx_heap : heap := [fx_P 118%Z; fx_P 107%Z].
+Definition fx_iw (a : aexp) : aexp := AFld (AFld a 1) 1.
+Definition fx_body : list rstmt :=
+  [RS (SRead 1%Z [fx_iw (APar 0)]); RS (SWrite (fx_iw (APar 0)) 139%Z); RS (SRead 2%Z [fx_iw (APar 0)])].
+Definition fx_ops : list op :=
+  [OCallR [(MVal, AVar 0)] fx_body None;
+   OS (SRead 3%Z [fx_iw (AVar 0); fx_iw (AVar 1)]);
+   OS (SCopy (AFld (AVar 0) 1) (AFld (AVar 1) 1));
+   OS (SRead 4%Z [fx_iw (AVar 0)]);
+   OS (SWrite (AFld (AFld (AVar 1) 2) 2) 106%Z);
+   ODecl (AVar 1);
+   OS (SRead 5%Z [fx_iw (AVar 3); AFld (AFld (AVar 3) 2) 2]);
+   OS (SCopy (AVar 0) (AVar 3));
+   OS (SRead 6%Z [AFld (AFld (AVar 0) 2) 2; fx_iw (AVar 0)])].
+
+Lemma repaired_inputs_demo :
+  forallb (fun mech =>
+    match transcript mech fx_heap fx_ops with
+    | ([l1; l2; l3; l4; l5; l6], true) =>
+        zs_eqb2 l1 [1; 118]%Z && zs_eqb2 l2 [2; 139]%Z && zs_eqb2 l3 [3; 118; 107]%Z && zs_eqb2 l4 [4; 107]%Z &&
+        zs_eqb2 l5 [5; 107; 106]%Z && zs_eqb2 l6 [6; 106; 107]%Z
+    | _ => false
+    end) [false; true] = true /\
+  forallb (val_only (length fx_heap)) fx_body = true.
+Proof. split; vm_compute; reflexivity. Qed.
